@@ -44,6 +44,7 @@ Record method := {
   m_params : list (string * string);    (* name, Go type *)
   m_results : list string;              (* Go result types *)
   m_guard_empty : list string;          (* parameters p tested by an early `if p == ""` return that does not touch the base *)
+  m_guard_root : list string;           (* parameters p refused by an early `if vfs.isRoot(p)` return of a PathError carrying p *)
   m_shape : shape
 }.
 
@@ -145,7 +146,20 @@ Definition required_file_methods : list string :=
 Definition has_method (ms : list method) (recv name : string) : bool :=
   existsb (fun m => String.eqb (m_recv m) recv && String.eqb (m_name m) name) ms.
 
+(* the calls that would remove the root directory (the base path itself) refuse it
+   before anything reaches the base: their first parameter is guarded by isRoot *)
+Definition root_guarded_methods : list string := ["Remove"; "RemoveAll"].
+
+Definition root_guard_ok (m : method) : bool :=
+  if String.eqb (m_recv m) "BasePathFS" && in_strs (m_name m) root_guarded_methods then
+    match m_params m with
+    | (p, _) :: _ => in_strs p (m_guard_root m)
+    | [] => false
+    end
+  else true.
+
 Definition table_complete (ms : list method) : bool :=
+  forallb root_guard_ok ms &&
   forallb (has_method ms "BasePathFS") required_vfs_methods
   && forallb (has_method ms "BasePathFile") required_file_methods.
 
